@@ -142,19 +142,21 @@ class MemIfcCL2FLAdapter( Component ):
         len_ = int(req.len)
         if not len_: len_ = ReqType.data_nbits >> 3
 
+        # A sub-word access transfers the low len_ bytes of the data field
         if   req.type_ == MemMsgType.READ:
           resp = RespType( req.type_, req.opaque, 0, req.len,
-                             s.right.read( req.addr, len_ ) )
+                           zext( s.right.read( req.addr, len_ ), ReqType.data_nbits ) )
 
         elif req.type_ == MemMsgType.WRITE:
-          s.right.write( req.addr, len_, req.data )
+          s.right.write( req.addr, len_, req.data[0:len_<<3] )
           # FIXME do we really set len=0 in response when doing subword wr?
           # resp = RespTypees( req.type_, req.opaque, 0, req.len, 0 )
           resp = RespType( req.type_, req.opaque, 0, 0, 0 )
 
         else: # AMOS
           resp = RespType( req.type_, req.opaque, 0, req.len,
-             s.right.amo( req.type_, req.addr, len_, req.data ) )
+             zext( s.right.amo( req.type_, req.addr, len_, req.data[0:len_<<3] ),
+                   ReqType.data_nbits ) )
 
         # Make line trace look better since s.right might get blocked
         assert s.left.resp.rdy()
